@@ -212,7 +212,13 @@ def check_seek(case):
             sut = SB.S3RangeFile(fake, "bkt", "k/obj", size)
         else:
             ref = open(p, "rb")
-            sut = SB.S3StorageBackend(bucket="bkt", prefix="k").open_seekable("obj")
+            try:
+                sut = SB.S3StorageBackend(bucket="bkt", prefix="k").open_seekable("obj")
+            except Exception as e:  # noqa - the local backend opens this object (the file exists): the S3 side must as well
+                ref.close()
+                out["nontrivial"] = True
+                out["violations"].append((f"seekable-differs/open-raises/{type(e).__name__}", f"open_seekable on an existing {size}-byte object raised {type(e).__name__}: {str(e)[:100]} (the local backend opens it)"))
+                return out
         fake.log.clear()
         try:
             a = _run_prog(ref, case["ops"])
